@@ -97,7 +97,7 @@ claim("C15", "`_dedup` (the de-duplication used for union members and, typed, fo
              "`TypeNormalizer._unfold_union_args` (nested unions lifted, nothing lost or invented, identity incl. order when nothing is nested) and `_merge_literals` (non-literal members "
              "kept, no literal member survives unmerged, the list never grows, identity without a literal member), proved with loop invariants over symbolic lists; the canonical-form behaviour of "
              "normalize_type on live typing objects is decided by a bounded enumeration of meaning-preserving / meaning-changing "
-             "rewrites, idempotence and implicit parameters",
+             "rewrites, idempotence and implicit parameters, and (canonical member order of a union without the help of normalize_type's lru_cache) all permutations of pools of look-alike members normalised by a new TypeNormalizer each",
       note=NOTE + " C15-specific: the dispatch of TypeNormalizer over live `typing` objects is reflection and stays outside the "
                   "contracts; it is covered only by the bounded rewrite enumeration (labelled bounded in the evidence, not counted "
                   "as proved). Ordering helpers (_order_args/_make_orderable) are not under contract.")
